@@ -1,7 +1,7 @@
 /-
   Refinement, part 2: the model analysis of a LOOP-FREE supported statement means exactly what
-  the calculus derives, at every choice vector (`compute_refines_loopfree_partial`), by induction
-  on the size of the syntax tree (`compute_refines_aux`), with the analogous statements for
+  the calculus derives, at every choice vector (`compute_refines_loopfree`), by induction on the size of
+  the syntax tree (`compute_refines_aux0`), with the analogous statements for
   statement lists (`list_refines`, `branchList_refines`) and `if` branches (`branch_refines`).
 -/
 import Mwp.Lemmas.RefineSeq
@@ -33,25 +33,6 @@ def namesOkO : Option Node → Bool
 end
 
 mutual
-/-- the right-hand side of every assignment carries at most ONE cast around the whole expression
-    (`compute_relation` strips exactly one; `desugar` strips all) -/
-def castOk : Node → Bool
-  | .assign _ _ r => !r.rmCast1.isCast
-  | .cast e => castOk e
-  | .compound (some l) => castOkL l
-  | .ifs _ t f => castOkO t && castOkO f
-  | .label _ s => castOk s
-  | .exprList es => castOkL es
-  | _ => true
-def castOkL : List Node → Bool
-  | [] => true
-  | n :: ns => castOk n && castOkL ns
-def castOkO : Option Node → Bool
-  | none => true
-  | some n => castOk n
-end
-
-mutual
 /-- no effect-free expression statement (`x;`, `1;`, `a+b;`) anywhere in statement position:
     the calculus reads those as no-ops, the analysis notes them as unsupported -/
 def noBare : Node → Bool
@@ -72,25 +53,19 @@ def noBareO : Option Node → Bool
   | some n => noBare n
 end
 
+variable {B : List String}
+
 /-- the side conditions carried through the induction; `B` is the list of classes that may show
     up in `skipped` (`bareClasses`, or nothing at all when the tree has no bare expression
     statement) -/
-def Ok (B : List String) (n : Node) : Prop :=
-  namesOk n = true ∧ castOk n = true ∧ (B = bareClasses ∨ noBare n = true)
+def Ok0 (B : List String) (n : Node) : Prop :=
+  namesOk n = true ∧ (B = bareClasses ∨ noBare n = true)
 
-variable {B : List String}
-
-theorem Ok.names {n : Node} (h : Ok B n) : namesOk n = true := h.1
-theorem Ok.cast {n : Node} (h : Ok B n) : castOk n = true := h.2.1
-theorem Ok.bare {n : Node} (h : Ok B n) : B = bareClasses ∨ noBare n = true := h.2.2
+theorem Ok0.names {n : Node} (h : Ok0 B n) : namesOk n = true := h.1
+theorem Ok0.bare {n : Node} (h : Ok0 B n) : B = bareClasses ∨ noBare n = true := h.2
 
 theorem rmCast_of_not_cast {n : Node} (h : n.isCast = false) : n.rmCast = n := by
   cases n <;> first | rfl | simp [Node.isCast] at h
-
-theorem rmCast_eq_rmCast1 {r : Node} (h : r.rmCast1.isCast = false) : r.rmCast = r.rmCast1 := by
-  cases r with
-  | cast e => rw [Node.rmCast]; exact rmCast_of_not_cast h
-  | _ => exact rmCast_of_not_cast h
 
 theorem namesOk_rmCast (n : Node) : namesOk n = true → namesOk n.rmCast = true := by
   induction n using Node.rmCast.induct with
@@ -105,20 +80,20 @@ theorem atomOk_of_namesOk {l : Node} {a : Atom} (h : namesOk l = true) (ha : ato
   · subst ha; simpa [atomOk, namesOk] using h'
   · subst ha; rfl
 
-theorem okL_mem {l : List Node} (h1 : namesOkL l = true) (h2 : castOkL l = true)
-    (h3 : B = bareClasses ∨ noBareL l = true) : ∀ n ∈ l, Ok B n := by
+theorem okL_mem {l : List Node} (h1 : namesOkL l = true)
+    (h3 : B = bareClasses ∨ noBareL l = true) : ∀ n ∈ l, Ok0 B n := by
   induction l with
   | nil => intro n hn; cases hn
   | cons a t ih =>
-    simp only [namesOkL, castOkL, Bool.and_eq_true] at h1 h2
+    simp only [namesOkL, Bool.and_eq_true] at h1
     have h3a : B = bareClasses ∨ noBare a = true :=
       h3.imp id (fun h => by simp only [noBareL, Bool.and_eq_true] at h; exact h.1)
     have h3t : B = bareClasses ∨ noBareL t = true :=
       h3.imp id (fun h => by simp only [noBareL, Bool.and_eq_true] at h; exact h.2)
     intro n hn
     rcases List.mem_cons.1 hn with rfl | hn
-    · exact ⟨h1.1, h2.1, h3a⟩
-    · exact ih h1.2 h2.2 h3t n hn
+    · exact ⟨h1.1, h3a⟩
+    · exact ih h1.2 h3t n hn
 
 theorem desugarL_mem {l : List Node} {cs : List Cmd} (hd : desugarL l = some cs)
     (hlf : loopFreeL cs = true) : ∀ n ∈ l, ∃ cmd, desugar n = some cmd ∧ cmd.loopFree = true := by
@@ -188,9 +163,9 @@ theorem refines_preIncDec (idx : Nat) (dg : DG.Graph) (x y bop : String)
     (RefinesL.cons w1 Rs rfl (RefinesL.nil (idx + 1) dg _ [] w2)))
 
 /-- a statement list walked from the empty relation list -/
-theorem list_refines (l : List Node) (IH : ∀ n ∈ l, NodeRefines B (Ok B) n) (cmd : Cmd)
+theorem list_refines (l : List Node) (IH : ∀ n ∈ l, NodeRefines B (Ok0 B) n) (cmd : Cmd)
     (hd : Option.map Cmd.seq (desugarL l) = some cmd) (hlf : cmd.loopFree = true)
-    (hn : namesOkL l = true) (hc : castOkL l = true) (hb : B = bareClasses ∨ noBareL l = true)
+    (hn : namesOkL l = true) (hb : B = bareClasses ∨ noBareL l = true)
     (q : Bool) (idx : Nat) (dg : DG.Graph) :
     ∃ out, Analysis.computeList q idx dg RelList.empty [] l = .ok out ∧ Refines B idx dg cmd out := by
   cases hdl : desugarL l with
@@ -199,17 +174,17 @@ theorem list_refines (l : List Node) (IH : ∀ n ∈ l, NodeRefines B (Ok B) n) 
     simp only [hdl, Option.map_some, Option.some.injEq] at hd
     subst hd
     rw [Cmd.loopFree] at hlf
-    obtain ⟨out, ho, R⟩ := computeList_refines B (Ok B) l cs hdl hlf (okL_mem hn hc hb) IH q idx dg
+    obtain ⟨out, ho, R⟩ := computeList_refines B (Ok0 B) l cs hdl hlf (okL_mem hn hb) IH q idx dg
       (Relation.new []) [] emptyRel_wf
     exact ⟨out, ho, refines_seq R⟩
 
-theorem branchList_refines (l : List Node) (IH : ∀ n ∈ l, NodeRefines B (Ok B) n) (cmd : Cmd)
+theorem branchList_refines (l : List Node) (IH : ∀ n ∈ l, NodeRefines B (Ok0 B) n) (cmd : Cmd)
     (hd : Option.map Cmd.seq (desugarL l) = some cmd) (hlf : cmd.loopFree = true)
-    (hn : namesOkL l = true) (hc : castOkL l = true) (hb : B = bareClasses ∨ noBareL l = true)
+    (hn : namesOkL l = true) (hb : B = bareClasses ∨ noBareL l = true)
     (q : Bool) (idx : Nat) (dg : DG.Graph) :
     ∃ out, Analysis.branchList q idx dg RelList.empty [] l = .ok out ∧ Refines B idx dg cmd out := by
   rw [branchList_eq_computeList]
-  · exact list_refines l IH cmd hd hlf hn hc hb q idx dg
+  · exact list_refines l IH cmd hd hlf hn hb q idx dg
   · intro n hn' q' idx' dg'
     cases hdl : desugarL l with
     | none => simp [hdl] at hd
@@ -218,15 +193,15 @@ theorem branchList_refines (l : List Node) (IH : ∀ n ∈ l, NodeRefines B (Ok 
       subst hd
       rw [Cmd.loopFree] at hlf
       obtain ⟨c, hdc, hlc⟩ := desugarL_mem hdl hlf n hn'
-      obtain ⟨out, ho, R⟩ := IH n hn' c hdc hlc (okL_mem hn hc hb n hn') q' idx' dg'
+      obtain ⟨out, ho, R⟩ := IH n hn' c hdc hlc (okL_mem hn hb n hn') q' idx' dg'
       exact ⟨out, ho, R.exit⟩
 
 theorem sizeOf_mem_lt {l : List Node} {n : Node} (h : n ∈ l) : sizeOf n < sizeOf l :=
   List.sizeOf_lt_of_mem h
 
-theorem branch_refines (o : Option Node) (IH : ∀ n : Node, sizeOf n < sizeOf o → NodeRefines B (Ok B) n)
+theorem branch_refines (o : Option Node) (IH : ∀ n : Node, sizeOf n < sizeOf o → NodeRefines B (Ok0 B) n)
     (a : Cmd) (hd : desugarO o = some a) (hlf : a.loopFree = true)
-    (hn : namesOkO o = true) (hc : castOkO o = true) (hb : B = bareClasses ∨ noBareO o = true)
+    (hn : namesOkO o = true) (hb : B = bareClasses ∨ noBareO o = true)
     (q : Bool) (idx : Nat) (dg : DG.Graph) :
     ∃ out, Analysis.branch q idx dg o = .ok out ∧ Refines B idx dg a out := by
   cases o with
@@ -237,7 +212,6 @@ theorem branch_refines (o : Option Node) (IH : ∀ n : Node, sizeOf n < sizeOf o
   | some n =>
     rw [desugarO] at hd
     rw [namesOkO] at hn
-    rw [castOkO] at hc
     rw [noBareO] at hb
     by_cases hcomp : ∃ items, n = .compound items
     · obtain ⟨items, rfl⟩ := hcomp
@@ -249,15 +223,14 @@ theorem branch_refines (o : Option Node) (IH : ∀ n : Node, sizeOf n < sizeOf o
       | some l =>
         rw [desugar] at hd
         rw [namesOk] at hn
-        rw [castOk] at hc
         rw [noBare] at hb
         rw [Analysis.branch]
-        refine branchList_refines l (fun m hm => IH m ?_) a hd hlf hn hc hb q idx dg
+        refine branchList_refines l (fun m hm => IH m ?_) a hd hlf hn hb q idx dg
         have := sizeOf_mem_lt hm
         simp only [Option.some.sizeOf_spec, Node.compound.sizeOf_spec]
         omega
     · rw [Analysis.branch.eq_4 q idx dg n (fun e => hcomp ⟨_, e⟩) (fun l e => hcomp ⟨_, e⟩)]
-      obtain ⟨out, ho, R⟩ := IH n (by simp only [Option.some.sizeOf_spec]; omega) a hd hlf ⟨hn, hc, hb⟩ q idx dg
+      obtain ⟨out, ho, R⟩ := IH n (by simp only [Option.some.sizeOf_spec]; omega) a hd hlf ⟨hn, hb⟩ q idx dg
       refine ⟨_, ?_, refines_comp_empty R⟩
       rw [ho]
       simp only [bind, Except.bind, R.exit]
@@ -384,7 +357,7 @@ theorem incDec_stmt_refines (idx : Nat) (dg : DG.Graph) (op bop : String) (e : N
   simp only [bind, Except.bind, h1]
   exact ⟨_, rfl, R⟩
 
-theorem compute_refines_aux (N : Nat) : ∀ node : Node, sizeOf node < N → NodeRefines B (Ok B) node := by
+theorem compute_refines_aux0 (N : Nat) : ∀ node : Node, sizeOf node < N → NodeRefines B (Ok0 B) node := by
   induction N with
   | zero => intro node h; omega
   | succ N ih =>
@@ -412,11 +385,7 @@ theorem compute_refines_aux (N : Nat) : ∀ node : Node, sizeOf node < N → Nod
         have := hok.names
         simp only [namesOk, Bool.and_eq_true] at this
         exact namesOk_rmCast r this.2
-      have heq : r.rmCast = r.rmCast1 := by
-        have := hok.cast
-        simp only [castOk, Bool.not_eq_true'] at this
-        exact rmCast_eq_rmCast1 this
-      rw [Analysis.compute, ← heq]
+      rw [Analysis.compute]
       split at hd
       · -- x = y
         rename_i y hr
@@ -504,8 +473,7 @@ theorem compute_refines_aux (N : Nat) : ∀ node : Node, sizeOf node < N → Nod
         cases hd
         simp only [Cmd.loopFree, Bool.and_eq_true] at hlf
         have hn := hok.names
-        have hc := hok.cast
-        simp only [namesOk, castOk, Bool.and_eq_true] at hn hc
+        simp only [namesOk, Bool.and_eq_true] at hn
         have hst : sizeOf t < N := by
           simp only [Node.ifs.sizeOf_spec] at hsz; omega
         have hsf : sizeOf f < N := by
@@ -514,8 +482,8 @@ theorem compute_refines_aux (N : Nat) : ∀ node : Node, sizeOf node < N → Nod
           hok.bare.imp id (fun h => by simp only [noBare, Bool.and_eq_true] at h; exact h.1)
         have hbf : B = bareClasses ∨ noBareO f = true :=
           hok.bare.imp id (fun h => by simp only [noBare, Bool.and_eq_true] at h; exact h.2)
-        obtain ⟨rt, hrt, Rt⟩ := branch_refines t (fun n hn' => ih n (by omega)) a ha hlf.1 hn.1 hc.1 hbt q idx dg
-        obtain ⟨rf, hrf, Rf⟩ := branch_refines f (fun n hn' => ih n (by omega)) b hb hlf.2 hn.2 hc.2 hbf
+        obtain ⟨rt, hrt, Rt⟩ := branch_refines t (fun n hn' => ih n (by omega)) a ha hlf.1 hn.1 hbt q idx dg
+        obtain ⟨rf, hrf, Rf⟩ := branch_refines f (fun n hn' => ih n (by omega)) b hb hlf.2 hn.2 hbf
           q rt.index rt.dg
         refine ⟨_, ?_, refines_ite Rt Rf⟩
         rw [Analysis.compute, hrt]
@@ -544,10 +512,8 @@ theorem compute_refines_aux (N : Nat) : ∀ node : Node, sizeOf node < N → Nod
       rename_i l
       rw [Analysis.compute]
       have hn := hok.names
-      have hc := hok.cast
       rw [namesOk] at hn
-      rw [castOk] at hc
-      refine list_refines l (fun m hm => ih m ?_) cmd hd hlf hn hc
+      refine list_refines l (fun m hm => ih m ?_) cmd hd hlf hn
         (hok.bare.imp id (fun h => by rw [noBare] at h; exact h)) q idx dg
       have := sizeOf_mem_lt hm
       simp only [Node.compound.sizeOf_spec, Option.some.sizeOf_spec] at hsz
@@ -556,19 +522,15 @@ theorem compute_refines_aux (N : Nat) : ∀ node : Node, sizeOf node < N → Nod
       rename_i name st
       rw [Analysis.compute]
       have hn := hok.names
-      have hc := hok.cast
       rw [namesOk] at hn
-      rw [castOk] at hc
       exact ih st (by simp only [Node.label.sizeOf_spec] at hsz; omega) cmd hd hlf
-        ⟨hn, hc, hok.bare.imp id (fun h => by rw [noBare] at h; exact h)⟩ q idx dg
+        ⟨hn, hok.bare.imp id (fun h => by rw [noBare] at h; exact h)⟩ q idx dg
     · -- e1, e2
       rename_i es
       rw [Analysis.compute]
       have hn := hok.names
-      have hc := hok.cast
       rw [namesOk] at hn
-      rw [castOk] at hc
-      refine list_refines es (fun m hm => ih m ?_) cmd hd hlf hn hc
+      refine list_refines es (fun m hm => ih m ?_) cmd hd hlf hn
         (hok.bare.imp id (fun h => by rw [noBare] at h; exact h)) q idx dg
       have := sizeOf_mem_lt hm
       simp only [Node.exprList.sizeOf_spec] at hsz
@@ -577,11 +539,9 @@ theorem compute_refines_aux (N : Nat) : ∀ node : Node, sizeOf node < N → Nod
       rename_i e
       rw [Analysis.compute]
       have hn := hok.names
-      have hc := hok.cast
       rw [namesOk] at hn
-      rw [castOk] at hc
       exact ih e (by simp only [Node.cast.sizeOf_spec] at hsz; omega) cmd hd hlf
-        ⟨hn, hc, hok.bare.imp id (fun h => by rw [noBare] at h; exact h)⟩ q idx dg
+        ⟨hn, hok.bare.imp id (fun h => by rw [noBare] at h; exact h)⟩ q idx dg
     · -- x;
       cases hd
       exact ⟨_, compute_id q idx dg _,
@@ -621,14 +581,12 @@ open Spec Refine in
     range, has no ∞ and means exactly the matrix the calculus derives (alternatives renumbered by
     `relabelAt`), over any universe `U ⊇ cmd.vars`.
 
-    `_partial`: `hcast` (`castOk`) restricts right-hand sides to at most one enclosing cast --
-    see `double_cast_counterexample`.  `out.skipped` is `[]` when the tree has no effect-free
-    expression statement (`noBare`); in general it lists only classes of such statements
-    (`x;`, `1;`, `a+b;`), which `desugar` reads as no-ops while the analysis notes them as
-    unsupported. -/
-theorem compute_refines_loopfree_partial (node : Node) (cmd : Cmd) (hd : desugar node = some cmd)
+    `out.skipped` is `[]` when the tree has no effect-free expression statement (`noBare`); in
+    general it lists only classes of such statements (`x;`, `1;`, `a+b;`), which `desugar` reads
+    as no-ops while the analysis notes them as unsupported. -/
+theorem compute_refines_loopfree (node : Node) (cmd : Cmd) (hd : desugar node = some cmd)
     (hlf : cmd.loopFree = true) (q : Bool) (idx : Nat) (dg : DG.Graph)
-    (hnames : namesOk node = true) (hcast : castOk node = true) :
+    (hnames : namesOk node = true) :
     ∃ out, Analysis.compute q idx dg node = .ok out ∧ out.exit = false ∧ out.dg = dg ∧
       (∀ s ∈ out.skipped, s ∈ bareClasses) ∧ (noBare node = true → out.skipped = []) ∧
       out.index = idx + cmd.arity ∧
@@ -638,13 +596,13 @@ theorem compute_refines_loopfree_partial (node : Node) (cmd : Cmd) (hd : desugar
           (∀ a b, r.den c a b ≠ .i) ∧
           ∃ M, sem U cmd idx (relabelAt idx cmd c) = some (idx + cmd.arity, M) ∧
             ∀ x y, x ∈ U → y ∈ U → r.den c x y = SMat.den U M x y := by
-  obtain ⟨out, ho, R⟩ := compute_refines_aux (B := bareClasses) (sizeOf node + 1) node
-    (Nat.lt_succ_self _) cmd hd hlf ⟨hnames, hcast, Or.inl rfl⟩ q idx dg
+  obtain ⟨out, ho, R⟩ := compute_refines_aux0 (B := bareClasses) (sizeOf node + 1) node
+    (Nat.lt_succ_self _) cmd hd hlf ⟨hnames, Or.inl rfl⟩ q idx dg
   obtain ⟨r, hr, wr, vr, semr⟩ := R.rel
   refine ⟨out, ho, R.exit, R.dg, R.skipped, ?_, R.index, r, hr, wr, vr, ?_⟩
   · intro hnb
-    obtain ⟨out', ho', R'⟩ := compute_refines_aux (B := []) (sizeOf node + 1) node
-      (Nat.lt_succ_self _) cmd hd hlf ⟨hnames, hcast, Or.inr hnb⟩ q idx dg
+    obtain ⟨out', ho', R'⟩ := compute_refines_aux0 (B := []) (sizeOf node + 1) node
+      (Nat.lt_succ_self _) cmd hd hlf ⟨hnames, Or.inr hnb⟩ q idx dg
     rw [ho] at ho'
     cases ho'
     exact List.eq_nil_iff_forall_not_mem.2 (fun s hs => by cases R'.skipped s hs)
@@ -655,25 +613,20 @@ theorem compute_refines_loopfree_partial (node : Node) (cmd : Cmd) (hd : desugar
     exact (den_matOf U _ hx hy).symm
 
 open Spec Refine in
-/-- why `castOk` is needed: `x = (T)(T)y` is read by `desugar` as `x = y`, but `compute_relation`
-    strips one cast only and reports the statement as unsupported (identity relation) -/
-theorem double_cast_counterexample :
+/-- a cast of a cast around a right-hand side is transparent for the analysis, as it is for
+    `desugar`: `x = (T)(T)y` is analysed exactly like `x = y` -/
+theorem double_cast_transparent :
     desugar (.assign "=" (.id "x") (.cast (.cast (.id "y")))) = some (.asgnVar "x" "y") ∧
-    namesOk (.assign "=" (.id "x") (.cast (.cast (.id "y")))) = true ∧
-    castOk (.assign "=" (.id "x") (.cast (.cast (.id "y")))) = false ∧
-    (∀ q, Analysis.compute q 0 [] (.assign "=" (.id "x") (.cast (.cast (.id "y")))) =
-      .ok ⟨0, [⟨[], []⟩], false, [], ["Assignment"]⟩) ∧
-    Relation.den ⟨[], []⟩ [] "x" "x" = .m ∧
-    sem ["x", "y"] (.asgnVar "x" "y") 0 [] = some (0, [[.o, .o], [.m, .m]]) := by
-  refine ⟨by simp [desugar, Node.rmCast], by decide, by decide, ?_, by decide, by decide⟩
-  intro q
-  simp [Analysis.compute, Node.rmCast1, Node.cls]
-  rfl
+    ∀ q idx dg, Analysis.compute q idx dg (.assign "=" (.id "x") (.cast (.cast (.id "y")))) =
+      Analysis.compute q idx dg (.assign "=" (.id "x") (.id "y")) := by
+  refine ⟨by simp [desugar, Node.rmCast], ?_⟩
+  intro q idx dg
+  simp [Analysis.compute, Node.rmCast]
 
 open Spec Refine in
 /-- non-vacuity: a program using every construct of the loop-free fragment (binary operation with
     the swapped numbering, `if` with a block and a single statement, cast, `y = x++`, `z--`,
-    empty statement) satisfies all hypotheses of `compute_refines_loopfree_partial` -/
+    empty statement) satisfies all hypotheses of `compute_refines_loopfree` -/
 example : ∃ cmd,
     desugar (.compound (some [
       .assign "=" (.id "x") (.binop "+" (.id "y") (.id "x")),
@@ -692,15 +645,9 @@ example :
       .ifs (.id "c")
         (some (.compound (some [.assign "=" (.id "y") (.cast (.unop "p++" (.id "x")))])))
         (some (.assign "=" (.id "z") (.binop "*" (.cast (.id "y")) (.const "int" "2")))),
-      .unop "--" (.id "z"), .empty])) = true ∧
-    castOk (.compound (some [
-      .assign "=" (.id "x") (.binop "+" (.id "y") (.id "x")),
-      .ifs (.id "c")
-        (some (.compound (some [.assign "=" (.id "y") (.cast (.unop "p++" (.id "x")))])))
-        (some (.assign "=" (.id "z") (.binop "*" (.cast (.id "y")) (.const "int" "2")))),
       .unop "--" (.id "z"), .empty])) = true := by decide
 
 export Refine (vector_table_documented binaryOp_den idAsgn_den constAsgn_den sem_frame sem_index
-  namesOk castOk noBare bareClasses swapAlt)
+  namesOk noBare bareClasses swapAlt)
 
 end Mwp
